@@ -49,6 +49,18 @@ def Xo.take : Nat → Xo → List W
   | 0, _ => []
   | n + 1, x => let r := x.next; r.1 :: Xo.take n r.2
 
+/-- rand 0.9 `StandardUniform` for `f64`: the top 53 bits of one `next_u64`, scaled by `2^-53`
+    (`scale * (value >> 11) as f64`). The numerator: -/
+def unif53 (w : W) : Nat := (w >>> 11).toNat
+/-- rand 0.9 `StandardUniform` for `f32`: `next_u32` of xoshiro256++ is the top 32 bits of `next_u64`; the sample is
+    `(value >> 8) as f32 * 2^-24`, i.e. the top 24 bits of the word. The numerator: -/
+def unif24 (w : W) : Nat := (w >>> 40).toNat
+
+/-- executable: the `f64` uniform of a word -/
+def unifF64 (w : W) : Float := Float.ofNat (unif53 w) / Float.ofNat (2 ^ 53)
+/-- executable: the `f32` uniform of a word -/
+def unifF32 (w : W) : Float32 := Float32.ofNat (unif24 w) / Float32.ofNat (2 ^ 24)
+
 def mhAcceptSeed (seed : W) (i : Nat) : W := seed + BitVec.ofNat 64 i + 1#64
 def mhProposalSeed (seed : W) (i : Nat) : W := mhAcceptSeed seed i + (1#64 <<< 63)
 def gibbsSeed (seed : W) (i : Nat) : W := seed + BitVec.ofNat 64 i
